@@ -6,7 +6,7 @@ E(k, d, c) == [key |-> k, ifd |-> d, cls |-> c]
 \* one representative per encoding class and directory
 UniverseFull == {
   E(1, "IFD0", "embShort"), E(2, "IFD0", "embLong"), E(3, "IFD0", "embAscii"), E(4, "IFD0", "ascii9"), E(5, "IFD0", "ascii33"),
-  E(6, "IFD0", "date"), E(7, "IFD0", "fOol"), E(8, "IFD0", "fEmb"), E(9, "IFD0", "inv"), E(10, "IFD0", "embShort2"), E(11, "IFD0", "embLongAlt"),
+  E(6, "IFD0", "date"), E(7, "IFD0", "fOol"), E(8, "IFD0", "fEmb"), E(9, "IFD0", "inv"), E(10, "IFD0", "embShort2"), E(11, "IFD0", "embLongAlt"), E(12, "IFD0", "long2"),
   E(20, "Exif", "embShort"), E(21, "Exif", "rat"), E(22, "Exif", "srat"), E(23, "Exif", "rat4"), E(24, "Exif", "date"),
   E(25, "Exif", "zone"), E(26, "Exif", "subsec"), E(27, "Exif", "ascii9"), E(28, "Exif", "ascii5"), E(29, "Exif", "fOol"),
   E(30, "Exif", "embAscii"), E(31, "Exif", "subsec5"), E(32, "Exif", "embLong"), E(33, "Exif", "embShort2"), E(34, "Exif", "embLongAlt"),
